@@ -99,6 +99,9 @@ func (s *stateWrap) LoadOffset() (uint64, error) { return s.inner.LoadOffset() }
 type storageWrap struct {
 	inner storage.Storage
 	hook  func(op string, msgs []storage.Message) error
+	// mute: sends are swallowed (replicas replaying a log); filter: the node is shown only these messages
+	mute   bool
+	filter func(storage.Message) bool
 }
 
 func (s *storageWrap) Send(m ...storage.Message) error {
@@ -107,9 +110,24 @@ func (s *storageWrap) Send(m ...storage.Message) error {
 			return err
 		}
 	}
+	if s.mute {
+		return nil
+	}
 	return s.inner.Send(m...)
 }
-func (s *storageWrap) GetMessages(o uint64) ([]storage.Message, error) { return s.inner.GetMessages(o) }
+func (s *storageWrap) GetMessages(o uint64) ([]storage.Message, error) {
+	ms, err := s.inner.GetMessages(o)
+	if err != nil || s.filter == nil {
+		return ms, err
+	}
+	var out []storage.Message
+	for _, m := range ms {
+		if s.filter(m) {
+			out = append(out, m)
+		}
+	}
+	return out, nil
+}
 func (s *storageWrap) Close() error                                     { return s.inner.Close() }
 func (s *storageWrap) IgnoreMessages(m []string, u bool) error          { return s.inner.IgnoreMessages(m, u) }
 func (s *storageWrap) UnignoreMessages()                                { s.inner.UnignoreMessages() }
